@@ -720,6 +720,15 @@ class Variants(Base):
         E = scale_exp(c, [x for l in lists if l is not None for _, _, x in l])
         if any(l is None or not rows_printable(l) for l in lists):
             return "3"          # a variant raised on valid input
+        # identical row lists get identical verdicts: print each distinct output once
+        uniq = []
+        for l in lists:
+            if l not in uniq:
+                uniq.append(l)
+        if self.ctx:
+            self.ctx.count("variants:outputs", len(lists))
+            self.ctx.count("variants:distinct-outputs", len(uniq))
+        lists = uniq
         return "v_variants %d %d %s %s %s %d %s [%s]" % (
             n1, n2, c_dtrue(c, E), c_rads(c, E), zl(c["maxmatch"]), E, c_same(c),
             "; ".join(c_rows(l, E) for l in lists))
